@@ -466,7 +466,11 @@ def make_series(var, nprs, tier, entry, dtype, times_kind, conv=False):
 
 
 def is_store_error(ex):
-    return isinstance(ex, ValueError) and "read-only" in str(ex) and "destination" in str(ex)
+    """numpy refuses a write into a read-only array ("assignment destination is read-only", "output array is read-only",
+    "sort array is read-only" ...); a compiled routine that merely refuses to *read* a read-only buffer says
+    "buffer source array is read-only" — that is not a store"""
+    msg = str(ex)
+    return isinstance(ex, (ValueError, RuntimeError)) and "read-only" in msg and "buffer source" not in msg
 
 
 def protocol(name, var, factory, randomised, entry, layout, dtype, times, tier, rng, res, problems, mismatches, trace_jobs):
